@@ -32,6 +32,13 @@ func init() {
 		json.Unmarshal(raw, &c)
 		return runMassive(m, c)
 	}
+	replayers["split"] = func(m *Model, raw json.RawMessage) []Diff {
+		var c struct {
+			Doc string `json:"doc_hex"`
+		}
+		json.Unmarshal(raw, &c)
+		return runSplit(m, unhx(c.Doc))
+	}
 	replayers["massive-fault"] = func(m *Model, raw json.RawMessage) []Diff {
 		var c faultCase
 		json.Unmarshal(raw, &c)
@@ -578,6 +585,33 @@ func runC10(ctx *Ctx) *Report {
 	}
 	m := NewModel()
 	defer m.Close()
+	// the splitter alone, against its model, on every document of this suite and on random ones
+	{
+		seen := map[string]bool{}
+		var docs [][]byte
+		for _, c := range cases {
+			if !seen[c.Doc] {
+				seen[c.Doc] = true
+				docs = append(docs, unhx(c.Doc))
+			}
+		}
+		pieces := []string{"- a\n", "  - b\n", "    - c\n", "\t- t\n", "# h\n", "## h2\n", "#\n", "\n", "  \n", "* s\n", "+ p\n", "-\n", "-x\n", "x\n", " # y\n", "\r\n", "- a", "#", "- # z\n", "　\n", "\t\n", "1. n\n"}
+		for k := 0; k < 3000 || (ctx.Thorough && k < 60000); k++ {
+			var sb strings.Builder
+			for j, n := 0, 1+ctx.Rng.Intn(9); j < n; j++ {
+				sb.WriteString(pieces[ctx.Rng.Intn(len(pieces))])
+			}
+			if !seen[hxs(sb.String())] {
+				seen[hxs(sb.String())] = true
+				docs = append(docs, []byte(sb.String()))
+			}
+		}
+		docs = append(docs, []byte("- "+strings.Repeat("x", 70000)+"\n- b\n"), []byte("- a\n  - "+strings.Repeat("y", 65534)+"\n# h\n- c\n"))
+		for _, d := range docs {
+			rep.Record(map[string]string{"kind": "split", "doc_hex": hx(d)}, "split:"+hx(d), len(d) > 8, runSplit(m, d))
+			rep.Count("split")
+		}
+	}
 	for _, c := range cases {
 		if rep.Full() {
 			rep.Notes = append(rep.Notes, "stopped early: 10 violations collected")
